@@ -23,7 +23,8 @@ RULE = ("all reflection vectors over the alphabet with non-zero last entry (leng
         "gains; all multisets of root factors with total degree <= 4 x gains x numerators. "
         "Non-trivial: order >= 2")
 ASSUMPTIONS = [
-  "coefficients are exact rationals (Q); roots are chosen, so stability is known by construction "
+  "coefficients are exact rationals (the absorbing class Q and plain fractions.Fraction); ints/floats "
+  "are not used because float step-down cannot decide exact criticality; roots are chosen, so stability is known by construction "
   "(no root finder involved)",
   "parcor is applied to filters with a constant denominator (its documented domain)",
 ]
@@ -142,11 +143,14 @@ def gen_roots(run):
         continue
       for g in GAINS:
         for num in ("1", "fir"):
-          yield (list(combo), g, num)
+          yield (list(combo), g, num, "Q")
+        # the same denominators with plain fractions.Fraction coefficients (no absorbing
+        # number class): float decay inside the library would lose exactness here
+        yield (list(combo), g, "1", "Fraction")
 
 
 def run_roots(case):
-  combo, g, num = case
+  combo, g, num, typ = case
   poly = [F(1)]
   inside = True
   for c in combo:
@@ -154,8 +158,9 @@ def run_roots(case):
     poly = lpcref.polymul(poly, coefs)
     inside = inside and ins
   g = F(g)
-  den = [Q(v * g) for v in poly]
-  numer = [Q(1)] if num == "1" else [Q(2), Q(-1), Q(1, 3)]
+  wrap = Q if typ == "Q" else F
+  den = [wrap(v * g) for v in poly]
+  numer = [wrap(1)] if num == "1" else [Q(2), Q(-1), Q(1, 3)]
   filt = ZFilter(numer, den)
   try:
     st = parcor_stable(filt)
@@ -165,7 +170,7 @@ def run_roots(case):
     return bad("stable:roots", "parcor_stable must be True exactly when every pole is strictly inside the "
                "unit circle, whatever the leading denominator coefficient",
                {"stable": inside, "poles": combo, "gain": g}, st)
-  return R(None, len(poly) > 2, (inside, g != 1))
+  return R(None, len(poly) > 2, (inside, g != 1, typ))
 
 
 KINDS = OrderedDict([
